@@ -74,7 +74,7 @@ def probe_handle(ctx, node, n, producer, exhaustive):
             V("index", "int-accepted-out-of-range" if exp == "IndexError" else "int", {"n": n, "i": i, "got": got, "expected": exp})
     # slices with positive step
     bounds = [None, *range(-n - 3, n + 4)]
-    steps = [None, 1, 2, 3]
+    steps = [None, 1, 2, 3] if n <= 6 else [None, 1, 2, 3, 5, n - 1, n, n + 5, 2 ** 40]
     if exhaustive and n <= 6:
         combos = [(a, b, s) for a in bounds for b in bounds for s in steps]
     else:
@@ -135,6 +135,9 @@ def run(ctx):
         h = Hugr()
         for _ in range(1 + ch.draw(6, "n-handles")):
             n = ch.draw(9, "count")
+            if ch.coin(1, 8, "count-large"):
+                n += 8 + ch.draw(120, "count-extra")
+                ctx.probe("handle_with_many_outputs")
             node = h.add_node(ops.DFG([], [tys.Bool] * n), num_outs=n)
             ctx.ev(0, "add_node", {"num_outs": n}, node.idx)
             ctx.steps += 1
